@@ -161,6 +161,37 @@ def exact_cover_case(r, front, framing, uniq, i):
     return {'front': front, 'framing': framing, 'layout': layout, 'flags': flags, 'reads': reads}
 
 
+def defaulted_case(r, front, framing, uniq, i):
+    """units that are constructed with only some of their tables (the others get pymodbus' default block): a write to a defaulted
+    table of one unit must not show in any other unit"""
+    hosted = sorted(r.sample(range(1, 40), 2))
+    zero = bool(i % 2)
+    units = {}
+    for u in hosted:
+        defaulted = [t for t in SM.TABLES if r.random() < 0.6] or ['c']
+        lay = {'alias': {}, 'defaulted': defaulted}
+        for t in SM.TABLES:
+            lay[t] = {'type': 'seq', 'start': 0, 'values': [False if t in 'cd' else 0] * 65536} if t in defaulted else SM.block_spec(r, t in 'cd', small=True)
+        units[u] = lay
+    layout = {'single': False, 'zero_mode': zero, 'units': units}
+    flags = {'ignore_missing_slaves': False, 'broadcast_enable': False}
+    tid = [0]
+
+    def fr(unit, m):
+        tid[0] += 1
+        return [[unit, tid[0], m]]
+    reads = []
+    for u in hosted:
+        uniq[0] += 1
+        a = r.randint(1, 30)
+        reads.append(fr(u, {'dir': REQ, 'fc': 6, 'address': a, 'value': uniq[0] & 0xFFFF}))
+        reads.append(fr(u, {'dir': REQ, 'fc': 5, 'address': a, 'value': 0xFF00}))
+    for u in hosted:
+        reads.append(fr(u, {'dir': REQ, 'fc': 3, 'address': 1, 'count': 30}))
+        reads.append(fr(u, {'dir': REQ, 'fc': 1, 'address': 1, 'count': 30}))
+    return {'front': front, 'framing': framing, 'layout': layout, 'flags': flags, 'reads': reads}
+
+
 def reconfig_case(r, front, framing, uniq, i):
     """traffic, then context[new] = ... / del context[old] / context[old] = replacement, then traffic to old and new units"""
     single = i % 5 == 4
@@ -279,6 +310,19 @@ def run(run):
                      sample={'front': front, 'framing': framing, 'hosted': sorted(case['layout']['units']), 'flags': case['flags'],
                              'reads': [[(u, m['fc']) for u, t, m in rd] for rd in case['reads']][:8], 'verdict': 'agrees' if ok else 'differs'},
                      sample_class=('exact-cover', front, framing))
+    # (5) units built with only some of their tables
+    for front, framing in FRONTS:
+        for i in range(run.scale(2, 60)):
+            idx += 1
+            if not run.mine(idx):
+                continue
+            case = defaulted_case(r, front, framing, uniq, i)
+            ok = check(run, case)
+            run.count('defaulted_table_histories')
+            run.case(h64(repr(sorted(case['layout']['units'])) + repr(case['reads'])), True,
+                     sample={'front': front, 'framing': framing, 'hosted': sorted(case['layout']['units']),
+                             'defaulted': {u: l['defaulted'] for u, l in case['layout']['units'].items()}, 'verdict': 'agrees' if ok else 'differs'},
+                     sample_class=('defaulted', front, framing))
     run.floor('run-time reconfiguration histories', run.counters.get('reconfig_histories', 0), 30 if run.shard is None else 1)
     run.floor('per-unit dumps compared', run.counters.get('unit_dumps_compared', 0), 5000 if run.shard is None else 300)
     run.floor('clean-region histories', run.counters.get('clean_region_cases', 0), 1500 if run.shard is None else 100)
